@@ -58,7 +58,7 @@ type options struct {
 	reifying map[*cfgDynamic]struct{}
 
 	// pointers of the target the validation of defaults is currently below
-	validating map[uintptr]struct{}
+	validating map[validatingKey]struct{}
 
 	// pairs of configs Merge is merging at the moment: references can lead
 	// back into a pair that is still being merged
@@ -299,7 +299,7 @@ func makeOptions(opts []Option) *options {
 		maxIdx:       defaultMaxIdx,
 		cycles:       new(int),
 		reifying:     map[*cfgDynamic]struct{}{},
-		validating:   map[uintptr]struct{}{},
+		validating:   map[validatingKey]struct{}{},
 		merging:      map[[2]*fields]struct{}{},
 	}
 	for _, opt := range opts {
